@@ -511,6 +511,7 @@ pub proof fn lemma_same_but5(s: Raw, t: Raw, k: Seq<u8>)
 /// C10, per step: what the contract owes (stakes + unreleased claims) grows only by exactly the accepted bond amount and shrinks only
 /// by exactly the payout of Claim; Unbond moves stake into a claim that matures after the unbonding period; a user's stake changes
 /// only by their own bond / unbond
+#[verifier::rlimit(40)]
 pub proof fn lemma_c10_step(s: Raw, t: Raw, sender: Addr, funds: Vec<Coin>, b: &BlockInfo, msg: ExecuteMsg, x: Seq<char>)
     requires inv(s), step_msg(s, t, sender, funds, b, msg)
     ensures
